@@ -364,3 +364,42 @@ Proof.
   split; [vm_compute; reflexivity|]. split; [vm_compute; reflexivity|].
   split; [vm_compute; reflexivity|]. split; [vm_compute; reflexivity|]. vm_compute. reflexivity.
 Qed.
+
+(* scale covariance (nothing in propagate_dft knows an absolute scale): multiply every sample of every field of
+   the wavefront by a constant c - amplitudes of 1e-12 or 1e+6 alike - and every sample of Wavefront.field of
+   the result is multiplied by c; window, success and metadata are unaffected.  [fscale c f] is the field f with
+   data c * data (offset and tilt list kept); the shift of a field depends on its tilt list only *)
+Theorem C02_scale_covariant :
+  forall (S : Scalar), is_ring S -> kernel_laws S -> forall (sq : Qc -> S)
+    (shift_of : field S -> Qc * Qc) (c : S) (w1 w2 : wavefront S) (dur duc : Qc) (shape pshape : option (Z * Z)) (os : Z)
+    (mask : option bmask) (dxr dxc : Qc) (Sr Sc Pr Pc : Z) (b : extent),
+  wdata w2 = map (fscale c) (wdata w1) ->
+  (forall f, In f (wdata w1) -> shift_of (fscale c f) = shift_of f) ->
+  wwl w1 = wwl w2 -> wfocal w1 = wfocal w2 -> wshape w1 = wshape w2 ->
+  wptype w1 <> PtNone -> wptype w2 <> PtNone -> wps w1 = Some (dxr, dxc) -> wps w2 = Some (dxr, dxc) ->
+  (forall f, In f (wdata w1) -> exists a, fd f = D2 a) ->
+  match shape with None => wshape w1 | Some s => s end = (Sr, Sc) ->
+  match pshape with None => (Sr, Sc) | Some p => p end = (Pr, Pc) ->
+  0 < Sr -> 0 < Sc -> 0 < Pr -> 0 < Pc -> 1 <= os ->
+  (forall m, mask = Some m -> mnr m = Sr * os /\ mnc m = Sc * os) ->
+  mask_bbox mask (Sr * os) (Sc * os) = Ok b ->
+  exists w1' w2' o1 o2,
+    propagate_dft sq shift_of w1 dur duc shape pshape os mask = Ok w1' /\ wfield w1' = Ok o1 /\
+    propagate_dft sq shift_of w2 dur duc shape pshape os mask = Ok w2' /\ wfield w2' = Ok o2 /\
+    (forall i j, 0 <= i < Sr * os -> 0 <= j < Sc * os -> get o2 i j = (c * get o1 i j)%K).
+Proof. exact propagate_dft_scale_covariant. Qed.
+Print Assumptions C02_scale_covariant.
+
+(* non-vacuity: the wavefront of C02_nonvacuous and the same with all data multiplied by -3 *)
+Example C02_scale_nonvacuous :
+  let f1 := mkField (S := ZS) (D2 (mkArr (S := ZS) 2 2 (fun i j => 1 + i + 2 * j))) 1 (-1) [] in
+  let f2 := mkField (S := ZS) (D2 (mkArr (S := ZS) 1 3 (fun _ j => j + 1))) 0 1 [] in
+  let mk := fun fs => mkWf (S := ZS) (Q2Qc (1 # 2)) (Some (Q2Qc (1 # 2), Q2Qc (1 # 4))) (Some (Q2Qc 4)) (3, 4) PtPupil fs in
+  exists wa wb oa ob,
+    propagate_dft (S := ZS) (fun _ => 1) no_shift (mk [f1; f2]) (Q2Qc (1 # 4)) (Q2Qc (1 # 8)) (Some (2, 3)) None 2 None = Ok wa /\
+    propagate_dft (S := ZS) (fun _ => 1) no_shift (mk (map (fscale (S := ZS) (-3)) [f1; f2])) (Q2Qc (1 # 4)) (Q2Qc (1 # 8)) (Some (2, 3)) None 2 None = Ok wb /\
+    wfield wa = Ok oa /\ wfield wb = Ok ob /\ get oa 1 2 = 16 /\ get ob 1 2 = -48.
+Proof.
+  cbv zeta. eexists. eexists. eexists. eexists. split; [vm_compute; reflexivity|]. split; [vm_compute; reflexivity|].
+  split; [vm_compute; reflexivity|]. split; [vm_compute; reflexivity|]. split; vm_compute; reflexivity.
+Qed.
